@@ -1,5 +1,8 @@
+import PV.Gen.Utf8
 /-
-Model of util/utf8.hh : IsTrailByte, IsValidCodepoint, DecodeUTF8, DecodeUTF8Iterator/IsUTF8.
+Model of util/utf8.hh.  `isTrailByte`, `isValidCodepoint`, `byteAt` and `decode` (IsTrailByte, IsValidCodepoint, DecodeUTF8)
+are GENERATED from the current source by tools/gen_utf8.py into PV/Gen/Utf8.lean (same namespace); this file adds the
+iterator loop (DecodeUTF8Iterator / IsUTF8), which is written by hand.
 Core Lean only (no Mathlib) so the driver links.
 
 Bytes are `UInt8`; the C++ arithmetic on `char`/`char32_t` is carried out on `Nat`
@@ -7,40 +10,6 @@ with the same operator shapes (`&&&`, `<<<`, `|||`).  A `throw NotUTF8Exception`
 is `none`.
 -/
 namespace PV.Utf8
-
-/-- `static_cast<signed char>(x) < -0x40` : the signed values -128..-65, i.e. bytes 0x80..0xBF. -/
-def isTrailByte (b : Nat) : Bool := 0x80 ≤ b && b < 0xC0
-
-/-- `(uint32(c) < 0xD800) || (c >= 0xE000 && c <= 0x10FFFF)` -/
-def isValidCodepoint (c : Nat) : Bool := c < 0xD800 || (0xE000 ≤ c && c ≤ 0x10FFFF)
-
-/-- byte `i` of the window as a `Nat` (only read under the same `len ≥ i+1` guard as the C++). -/
-def byteAt (bs : List UInt8) (i : Nat) : Nat := (bs.getD i 0).toNat
-
-/-- `DecodeUTF8(begin, end, &mblen)`: `some (codepoint, mblen)` or `none` for the throw.
-    The C++ presumes `end > begin`; the empty window is `none`. -/
-def decode (bs : List UInt8) : Option (Nat × Nat) :=
-  let len := bs.length
-  if len = 0 then none else
-  let b0 := byteAt bs 0
-  if b0 < 0x80 then some (b0, 1)
-  else if len ≥ 2 && (b0 &&& 0xE0) == 0xC0 then
-    let b1 := byteAt bs 1
-    let cp := ((b0 &&& 0x1F) <<< 6) ||| (b1 &&& 0x3F)
-    if isTrailByte b1 && cp ≥ 0x0080 && isValidCodepoint cp then some (cp, 2) else none
-  else if len ≥ 3 && (b0 &&& 0xF0) == 0xE0 then
-    let b1 := byteAt bs 1
-    let b2 := byteAt bs 2
-    let cp := ((b0 &&& 0x0F) <<< 12) ||| ((b1 &&& 0x3F) <<< 6) ||| (b2 &&& 0x3F)
-    if isTrailByte b1 && isTrailByte b2 && cp ≥ 0x0800 && isValidCodepoint cp then some (cp, 3) else none
-  else if len ≥ 4 && (b0 &&& 0xF8) == 0xF0 then
-    let b1 := byteAt bs 1
-    let b2 := byteAt bs 2
-    let b3 := byteAt bs 3
-    let cp := ((b0 &&& 0x07) <<< 18) ||| ((b1 &&& 0x3F) <<< 12) ||| ((b2 &&& 0x3F) <<< 6) ||| (b3 &&& 0x3F)
-    if isTrailByte b1 && isTrailByte b2 && isTrailByte b3 && cp ≥ 0x10000 && isValidCodepoint cp
-    then some (cp, 4) else none
-  else none
 
 /-- The iterator loop of `IsUTF8` / `DecodeUTF8Range`: decode at the front, drop `mblen`
     bytes, repeat until empty.  Returns the code points, or `none` on the first throw.
